@@ -1,1 +1,488 @@
-//! (to be filled)
+//! C18 — the async runtime registers, delivers and unregisters waitables exactly.
+//!
+//! Real code: all of waitable.rs — `WaitableOperation::{new, register_waker,
+//! unregister_waker, poll_complete, poll_complete_with_code, cancel, Drop}`,
+//! `CabiTask::{new, unregister, Drop}`, `cabi_wake`, `CompletionStatus` —
+//! driven through a minimal `WaitableOp` (the hook re-exports the trait and
+//! the struct) that stands for any stream/future/subtask operation:
+//!
+//! * `start` answers `PENDING` (blocked), `PROGRESS` (progress that does not
+//!   finish the operation, like a subtask's STARTED) or `DONE`;
+//! * events carry `PROGRESS` or `DONE`, only while the waitable is registered
+//!   and unresolved; delivery = remove the registration, call the callback;
+//! * the (synchronous) cancel intrinsic answers `DONE` or `CANCELLED`, traps
+//!   (assert) when the waitable is still registered with any task, when the
+//!   operation already resolved, or when called twice;
+//! * dropping the in-progress state stands for the handle-level intrinsic
+//!   (`subtask.drop`, ...): it traps unless the operation resolved and the
+//!   waitable is registered nowhere.
+//!
+//! What is asserted (mock task + ledger):
+//! pending => registered with the *current* task, always with the same
+//! callback pointer; never registered with two tasks at once; cancel / handle
+//! drop only while registered nowhere; nothing registered and no task clone
+//! alive once the operation's memory is gone; every code the host produced
+//! (start answer, events, cancel answer) reaches `in_progress_update` exactly
+//! once and in order; every delivered event wakes the waker exactly once and
+//! waker clones are balanced by drops.
+
+use crate::mock_task as mt;
+use core::pin::{pin, Pin};
+use core::task::{Context, Poll, RawWaker, RawWakerVTable, Waker};
+use wit_bindgen::rt::async_support::verif_hooks::{WaitableOp, WaitableOperation};
+
+const PENDING: u32 = 0;
+const PROGRESS: u32 = 1;
+const DONE: u32 = 2;
+const CANCELLED: u32 = 3;
+
+struct Host {
+    handle: u32,
+    started: u32,
+    start_cancelled: u32,
+    resolved: bool,
+    cancel_calls: u32,
+    n_host_codes: u32,
+    seq_host: u32,
+    n_update: u32,
+    seq_guest: u32,
+    state_dropped: u32,
+    wakes: u32,
+    waker_clones: u32,
+    waker_drops: u32,
+}
+
+static mut H: Host = Host {
+    handle: 0,
+    started: 0,
+    start_cancelled: 0,
+    resolved: false,
+    cancel_calls: 0,
+    n_host_codes: 0,
+    seq_host: 0,
+    n_update: 0,
+    seq_guest: 0,
+    state_dropped: 0,
+    wakes: 0,
+    waker_clones: 0,
+    waker_drops: 0,
+};
+
+unsafe fn host_code(code: u32) {
+    H.n_host_codes += 1;
+    H.seq_host = H.seq_host * 4 + code;
+    if code == DONE || code == CANCELLED {
+        H.resolved = true;
+    }
+}
+
+/// In-progress state; its destructor is the handle-level drop intrinsic.
+struct InProg;
+impl Drop for InProg {
+    fn drop(&mut self) {
+        unsafe {
+            H.state_dropped += 1;
+            assert!(H.resolved, "in-progress state (handle) dropped before the operation resolved");
+            assert!(
+                !mt::registered_anywhere(H.handle),
+                "handle dropped while its waitable is still registered with a task"
+            );
+        }
+    }
+}
+
+struct Op;
+
+unsafe impl WaitableOp for Op {
+    type Start = ();
+    type InProgress = InProg;
+    type Result = u32;
+    type Cancel = Option<u32>;
+
+    fn start(&mut self, _: ()) -> (u32, InProg) {
+        unsafe {
+            H.started += 1;
+            assert!(H.started == 1, "operation started twice");
+            let h: u32 = kani::any();
+            kani::assume(h >= 1 && h < (1 << 28));
+            H.handle = h;
+            mt::EXPECT_WAITABLE = h;
+            let code: u32 = kani::any();
+            kani::assume(code == PENDING || code == PROGRESS || code == DONE);
+            host_code(code);
+            (code, InProg)
+        }
+    }
+
+    fn start_cancelled(&mut self, _: ()) -> Option<u32> {
+        unsafe {
+            H.start_cancelled += 1;
+        }
+        None
+    }
+
+    fn in_progress_update(&mut self, state: InProg, code: u32) -> Result<u32, InProg> {
+        unsafe {
+            H.n_update += 1;
+            H.seq_guest = H.seq_guest * 4 + code;
+        }
+        match code {
+            PENDING | PROGRESS => Err(state),
+            _ => Ok(code), // `state` dropped here: handle released
+        }
+    }
+
+    fn in_progress_waitable(&mut self, _: &InProg) -> u32 {
+        unsafe { H.handle }
+    }
+
+    fn in_progress_cancel(&mut self, _: &mut InProg) -> u32 {
+        unsafe {
+            assert!(!H.resolved, "cancel intrinsic on an operation that already resolved (host traps)");
+            assert!(H.cancel_calls == 0, "cancel intrinsic called twice (host traps)");
+            assert!(
+                !mt::registered_anywhere(H.handle),
+                "cancel intrinsic while the waitable is still registered with a task"
+            );
+            H.cancel_calls += 1;
+            let ans: u32 = kani::any();
+            kani::assume(ans == DONE || ans == CANCELLED);
+            host_code(ans);
+            ans
+        }
+    }
+
+    fn result_into_cancel(&mut self, r: u32) -> Option<u32> {
+        Some(r)
+    }
+}
+
+// ---- counting waker -----------------------------------------------------------
+
+static WAKER_VT: RawWakerVTable = RawWakerVTable::new(w_clone, w_wake, w_wake_by_ref, w_drop);
+unsafe fn w_clone(p: *const ()) -> RawWaker {
+    H.waker_clones += 1;
+    RawWaker::new(p, &WAKER_VT)
+}
+unsafe fn w_wake(_: *const ()) {
+    H.wakes += 1;
+    H.waker_drops += 1; // `wake` consumes the waker
+}
+unsafe fn w_wake_by_ref(_: *const ()) {
+    H.wakes += 1;
+}
+unsafe fn w_drop(_: *const ()) {
+    H.waker_drops += 1;
+}
+
+// ---- driver --------------------------------------------------------------------
+
+type Wo = WaitableOperation<Op>;
+
+/// Which task's set currently holds the waitable (if any) delivers the event.
+unsafe fn host_event() {
+    assert!(!H.resolved && H.handle != 0, "harness: no event possible here");
+    let code: u32 = kani::any();
+    kani::assume(code == PROGRESS || code == DONE);
+    host_code(code);
+    let wakes = H.wakes;
+    if mt::L[0].reg_set {
+        mt::deliver(0, code);
+    } else {
+        assert!(mt::L[1].reg_set, "harness: no event possible here (not registered)");
+        mt::deliver(1, code);
+    }
+    assert!(H.wakes == wakes + 1, "a delivered event must wake the registered waker exactly once");
+}
+
+unsafe fn step_poll(op: Pin<&mut Wo>, cx: &mut Context<'_>, cur: usize) -> Option<u32> {
+    let task = mt::CUR;
+    let r = match op.poll_complete(cx) {
+        Poll::Ready(r) => Some(r),
+        Poll::Pending => {
+            assert!(mt::L[cur].reg_set, "pending operation is not registered with the current task");
+            assert!(mt::L[cur].reg_waitable == H.handle);
+            assert!(!mt::L[1 - cur].reg_set, "pending operation is (also) registered with another task");
+            None
+        }
+    };
+    assert!(mt::CUR == task, "wasip3_task_set cell not restored");
+    r
+}
+
+/// Scripts: `P` poll, `E` host event, `A`/`B` make task A/B current, `C`
+/// explicit `cancel()`; the operation is dropped when the script ends.
+macro_rules! steps {
+    ($op:ident, $cx:ident, $tasks:ident, $cur:ident, $res:ident, $cancel:ident;) => {};
+    ($op:ident, $cx:ident, $tasks:ident, $cur:ident, $res:ident, $cancel:ident; P $($rest:tt)*) => {
+        $res = step_poll($op.as_mut(), &mut $cx, $cur);
+        if $res.is_none() {
+            steps!($op, $cx, $tasks, $cur, $res, $cancel; $($rest)*);
+        }
+    };
+    ($op:ident, $cx:ident, $tasks:ident, $cur:ident, $res:ident, $cancel:ident; E $($rest:tt)*) => {
+        host_event();
+        steps!($op, $cx, $tasks, $cur, $res, $cancel; $($rest)*);
+    };
+    ($op:ident, $cx:ident, $tasks:ident, $cur:ident, $res:ident, $cancel:ident; A $($rest:tt)*) => {
+        $cur = 0;
+        mt::CUR = $tasks[0];
+        steps!($op, $cx, $tasks, $cur, $res, $cancel; $($rest)*);
+    };
+    ($op:ident, $cx:ident, $tasks:ident, $cur:ident, $res:ident, $cancel:ident; B $($rest:tt)*) => {
+        $cur = 1;
+        mt::CUR = $tasks[1];
+        steps!($op, $cx, $tasks, $cur, $res, $cancel; $($rest)*);
+    };
+    ($op:ident, $cx:ident, $tasks:ident, $cur:ident, $res:ident, $cancel:ident; C $($rest:tt)*) => {
+        $cancel = Some($op.as_mut().cancel());
+        steps!($op, $cx, $tasks, $cur, $res, $cancel; $($rest)*);
+    };
+}
+
+/// `$va`/`$vb`: C ABI version of task A / B (`None` = symbolic 1 or 2).  The
+/// one-task form never constructs task B (so CBMC does not see B's functions
+/// as candidates of the indirect calls).
+macro_rules! scenario {
+    (one, $va:expr; $($script:tt)*) => {{
+        let va: u32 = match $va { Some(v) => v, None => if kani::any() { 1 } else { 2 } };
+        let mut a1 = mt::new_v1_a();
+        let mut a2 = mt::new_v2_a();
+        let ta: *mut mt::wasip3_task = if va == 1 { &mut a1 } else { (&mut a2 as *mut mt::wasip3_task_v2).cast() };
+        let tasks = [ta, ta];
+        scenario!(@run tasks, va, 0; $($script)*);
+    }};
+    (two, $va:expr, $vb:expr; $($script:tt)*) => {{
+        let va: u32 = match $va { Some(v) => v, None => if kani::any() { 1 } else { 2 } };
+        let vb: u32 = match $vb { Some(v) => v, None => if kani::any() { 1 } else { 2 } };
+        let mut a1 = mt::new_v1_a();
+        let mut a2 = mt::new_v2_a();
+        let mut b1 = mt::new_v1_b();
+        let mut b2 = mt::new_v2_b();
+        let ta: *mut mt::wasip3_task = if va == 1 { &mut a1 } else { (&mut a2 as *mut mt::wasip3_task_v2).cast() };
+        let tb: *mut mt::wasip3_task = if vb == 1 { &mut b1 } else { (&mut b2 as *mut mt::wasip3_task_v2).cast() };
+        let tasks = [ta, tb];
+        scenario!(@run tasks, va, vb; $($script)*);
+    }};
+    (@run $tasks:ident, $va:ident, $vb:expr; $($script:tt)*) => {{
+        mt::CLONE_DISTINCT = kani::any();
+        #[allow(unused_mut, unused_assignments)]
+        let mut cur: usize = 0;
+        mt::CUR = $tasks[0];
+
+        H.waker_clones = 1; // the harness's own reference
+        let waker = Waker::from_raw(RawWaker::new(core::ptr::null(), &WAKER_VT));
+        #[allow(unused_mut)]
+        let mut cx = Context::from_waker(&waker);
+        #[allow(unused_assignments, unused_mut)]
+        let mut result: Option<u32> = None;
+        #[allow(unused_assignments, unused_mut)]
+        let mut cancelled: Option<Option<u32>> = None;
+        {
+            #[allow(unused_mut)]
+            let mut op = pin!(WaitableOperation::new(Op, ()));
+            steps!(op, cx, $tasks, cur, result, cancelled; $($script)*);
+            if cancelled.is_some() {
+                assert!(op.is_done(), "operation not done after cancel()");
+            }
+            // dropped here
+        }
+        mt::OP_ALIVE = false;
+        assert!(mt::CUR == $tasks[cur], "wasip3_task_set cell not restored");
+        drop(waker);
+        finish(result, cancelled, $va, $vb);
+    }};
+}
+
+unsafe fn finish(result: Option<u32>, cancelled: Option<Option<u32>>, va: u32, vb: u32) {
+    // nothing may point at the operation's memory any more
+    mt::assert_quiescent();
+    if va == 1 {
+        assert!(mt::L[0].clones_made == 0);
+    }
+    if vb == 1 {
+        assert!(mt::L[1].clones_made == 0);
+    }
+    // every code the host produced was consumed exactly once, in order
+    assert!(H.n_update == H.n_host_codes, "a host code was dropped or consumed twice");
+    assert!(H.seq_guest == H.seq_host, "codes reached in_progress_update out of order");
+    if H.started == 0 {
+        assert!(H.start_cancelled == 1 && H.state_dropped == 0 && H.cancel_calls == 0);
+        assert!(result.is_none());
+        if let Some(c) = cancelled {
+            assert!(c.is_none());
+        }
+    } else {
+        assert!(H.start_cancelled == 0);
+        assert!(H.resolved, "operation ended while still in progress");
+        assert!(H.state_dropped == 1, "in-progress state must be released exactly once");
+        let last = H.seq_host & 3;
+        if let Some(r) = result {
+            assert!(r == DONE && H.cancel_calls == 0);
+        }
+        if let Some(c) = cancelled {
+            assert!(c == Some(last), "cancel() must report the code the host produced last");
+        }
+    }
+    // wake-ups and waker references
+    assert!(H.wakes == mt::L[0].n_delivered + mt::L[1].n_delivered);
+    assert!(H.waker_clones == H.waker_drops, "a cloned waker was leaked or dropped twice");
+}
+
+macro_rules! c18 {
+    ($name:ident, one, $va:expr, [$($script:tt)*], $covers:expr) => {
+        c18!(@h $name, $covers, { scenario!(one, $va; $($script)*); });
+    };
+    ($name:ident, two, $va:expr, $vb:expr, [$($script:tt)*], $covers:expr) => {
+        c18!(@h $name, $covers, { scenario!(two, $va, $vb; $($script)*); });
+    };
+    (@h $name:ident, $covers:expr, $body:block) => {
+        #[kani::proof]
+        #[kani::unwind(2)]
+        #[kani::stub(wit_bindgen::rt::async_support::cabi::wasip3_task_set, crate::mock_task::stub_task_set)]
+        fn $name() {
+            unsafe {
+                $body;
+                let f: fn() = $covers;
+                f();
+            }
+        }
+    };
+}
+
+// ---- vacuity witnesses -----------------------------------------------------------
+fn cov_unstarted() {
+    unsafe {
+        kani::cover!(H.start_cancelled == 1);
+    }
+}
+fn cov_p() {
+    unsafe {
+        kani::cover!(H.n_host_codes == 1 && H.resolved, "completed by start");
+        kani::cover!(H.cancel_calls == 1 && (H.seq_host & 3) == CANCELLED, "cancel won");
+        kani::cover!(H.cancel_calls == 1 && (H.seq_host & 3) == DONE, "cancel lost");
+        kani::cover!(mt::L[0].clones_made == 1 && mt::CLONE_DISTINCT, "v2 task, fresh-pointer clone");
+        kani::cover!(mt::L[0].n_register == 1 && mt::L[0].clones_made == 0, "v1 task");
+    }
+}
+fn cov_pe() {
+    unsafe {
+        kani::cover!(H.cancel_calls == 0 && mt::L[0].n_delivered == 1 && H.n_update == 2, "queued DONE consumed by drop/cancel, no cancel intrinsic");
+        kani::cover!(H.cancel_calls == 1 && mt::L[0].n_delivered == 1 && H.n_update == 3, "queued PROGRESS consumed, then cancel intrinsic");
+    }
+}
+fn cov_pep() {
+    unsafe {
+        kani::cover!(H.cancel_calls == 0 && mt::L[0].n_delivered == 1 && H.state_dropped == 1, "event polled to completion");
+        kani::cover!(H.cancel_calls == 1 && mt::L[0].n_register == 2, "PROGRESS polled: re-registered, then cancelled");
+    }
+}
+fn cov_pepep() {
+    unsafe {
+        kani::cover!(mt::L[0].n_delivered == 2 && H.cancel_calls == 0 && H.n_update == 3, "two events polled to completion");
+    }
+}
+fn cov_pp() {
+    unsafe {
+        kani::cover!(mt::L[0].n_register == 2 && H.cancel_calls == 1, "spurious re-poll re-registers; then cancel");
+        kani::cover!(mt::L[0].n_register == 2 && mt::L[0].clones_made == 2, "fresh-pointer clones: second registration re-clones the task");
+    }
+}
+fn cov_ppep() {
+    unsafe {
+        kani::cover!(mt::L[0].n_register == 2 && mt::L[0].n_delivered == 1 && H.cancel_calls == 0, "spurious re-poll, then event polled to completion");
+        kani::cover!(mt::L[0].n_register == 3 && H.cancel_calls == 1, "spurious re-poll, PROGRESS polled, then cancelled");
+    }
+}
+fn cov_db() {
+    unsafe {
+        kani::cover!(mt::L[0].n_register == 1 && mt::L[1].n_register == 0 && H.cancel_calls == 1, "registered with A, dropped while B is current");
+    }
+}
+fn cov_ab_cancel() {
+    unsafe {
+        kani::cover!(mt::L[0].n_register >= 1 && mt::L[1].n_register >= 1 && H.cancel_calls == 1, "registered with A, then B, then cancelled");
+    }
+}
+fn cov_a_e_b() {
+    unsafe {
+        kani::cover!(mt::L[0].n_delivered == 1 && mt::L[1].n_register == 1 && H.cancel_calls == 1, "event delivered by task A, re-registered with B, cancelled");
+        kani::cover!(mt::L[0].n_delivered == 1 && mt::L[1].n_register == 0 && H.cancel_calls == 0, "event delivered by task A, completed under B");
+    }
+}
+fn cov_ab_eb() {
+    unsafe {
+        kani::cover!(mt::L[0].n_register == 1 && mt::L[1].n_delivered == 1 && H.cancel_calls == 0, "registered with A, moved to B, event delivered by task B, completed");
+        kani::cover!(mt::L[1].n_delivered == 1 && mt::L[1].n_register == 2 && H.cancel_calls == 1, "moved to B, PROGRESS delivered by B, re-registered, cancelled");
+    }
+}
+// one task (A), C ABI version and clone behaviour symbolic
+c18!(c18_one_d, one, None, [], cov_unstarted);
+c18!(c18_one_c, one, None, [C], cov_unstarted);
+c18!(c18_one_pd, one, None, [P], cov_p);
+c18!(c18_one_pc, one, None, [P C], cov_p);
+c18!(c18_one_ped, one, None, [P E], cov_pe);
+c18!(c18_one_pec, one, None, [P E C], cov_pe);
+c18!(c18_one_pepd, one, None, [P E P], cov_pep);
+c18!(c18_one_pepc, one, None, [P E P C], cov_pep);
+c18!(c18_one_pepepd, one, None, [P E P E P], cov_pepep);
+c18!(c18_one_ppd, one, None, [P P], cov_pp);
+c18!(c18_one_ppepd, one, None, [P P E P], cov_ppep);
+
+// two tasks, both on the v2 C ABI: the operation is registered under task A
+// and re-polled / cancelled / dropped while task B (or A again) is current
+c18!(c18_two_v2v2_pa_pb_d, two, Some(2), Some(2), [P B P], cov_ab_cancel);
+c18!(c18_two_v2v2_pa_e_pb_d, two, Some(2), Some(2), [P E B P], cov_a_e_b);
+c18!(c18_two_v2v2_pa_pb_e_pb, two, Some(2), Some(2), [P B P E P], cov_ab_eb);
+c18!(c18_two_v2v2_pa_pb_da, two, Some(2), Some(2), [P B P A], cov_ab_cancel);
+c18!(c18_two_v2v2_pa_db, two, Some(2), Some(2), [P B], cov_db);
+c18!(c18_two_v2v2_pa_pb_pa_d, two, Some(2), Some(2), [P B P A P], cov_ab_cancel);
+
+// two tasks where one of them only speaks the v1 C ABI (no clone/drop, so the
+// runtime cannot keep a reference to the task it registered with)
+c18!(c18_two_v1v1_pa_pb_d, two, Some(1), Some(1), [P B P], cov_ab_cancel);
+c18!(c18_two_v1v2_pa_pb_d, two, Some(1), Some(2), [P B P], cov_ab_cancel);
+c18!(c18_two_v2v1_pa_pb_d, two, Some(2), Some(1), [P B P], cov_ab_cancel);
+c18!(c18_two_v1v1_pa_e_pb_d, two, Some(1), Some(1), [P E B P], cov_a_e_b);
+c18!(c18_two_v1v1_pa_db, two, Some(1), Some(1), [P B], cov_db);
+
+// ---- thorough tier: longer schedules ---------------------------------------------
+fn cov_ppp() {
+    unsafe {
+        kani::cover!(mt::L[0].n_register == 3 && H.cancel_calls == 1, "two spurious re-polls");
+    }
+}
+fn cov_pepp() {
+    unsafe {
+        kani::cover!(mt::L[0].n_delivered == 1 && mt::L[0].n_register == 3 && H.cancel_calls == 1, "PROGRESS polled, spurious re-poll, cancelled");
+    }
+}
+fn cov_pepec() {
+    unsafe {
+        kani::cover!(mt::L[0].n_delivered == 2 && H.cancel_calls == 0 && H.n_update == 3, "second event (DONE) queued when cancel() is called");
+    }
+}
+fn cov_abab() {
+    unsafe {
+        kani::cover!(mt::L[0].n_register == 2 && mt::L[1].n_register == 2 && H.cancel_calls == 1, "A, B, A, B then cancelled");
+    }
+}
+fn cov_a_e_b_e_a() {
+    unsafe {
+        kani::cover!(mt::L[0].n_delivered == 1 && mt::L[1].n_delivered == 1 && H.cancel_calls == 0, "one event from each task, completed");
+        kani::cover!(mt::L[0].n_delivered == 1 && mt::L[1].n_delivered == 1 && mt::L[0].n_register == 2 && H.cancel_calls == 1, "one event from each task, back under A, cancelled");
+    }
+}
+c18!(c18_deep_one_pppd, one, None, [P P P], cov_ppp);
+c18!(c18_deep_one_peppd, one, None, [P E P P], cov_pepp);
+c18!(c18_deep_one_pepec, one, None, [P E P E C], cov_pepec);
+c18!(c18_deep_one_ppepepd, one, None, [P P E P E P], cov_pepep);
+c18!(c18_deep_two_v2v2_abab, two, Some(2), Some(2), [P B P A P B P], cov_abab);
+c18!(c18_deep_two_v2v2_a_e_b_e_a, two, Some(2), Some(2), [P E B P E A P], cov_a_e_b_e_a);
+c18!(c18_deep_two_v2v2_pa_pb_e_pa, two, Some(2), Some(2), [P B P E A P], cov_ab_eb_a);
+fn cov_ab_eb_a() {
+    unsafe {
+        kani::cover!(mt::L[1].n_delivered == 1 && mt::L[0].n_register == 2 && H.cancel_calls == 1, "event from B consumed under A, re-registered with A, cancelled");
+        kani::cover!(mt::L[1].n_delivered == 1 && mt::L[0].n_register == 1 && H.cancel_calls == 0, "event from B completes the operation under A");
+    }
+}
